@@ -92,7 +92,12 @@ def realise_form(c):
         if f == "envelope_alias_keys":
             return {"bytecode": h, "encoding": "hex"}, term
     if t == "Address":
-        bs = [0x60 if c["len"] == 29 else 0x00] + bytes_of(c["len"] - 1)
+        # content without the hex digit 1 (and ending in c1 for the short one): with a header such as e1 / f1 / ab the hex
+        # form is "letters, then 1, then no further 1", the shape of a bech32 string
+        body = [[0xA0, 0xB2, 0xC3, 0xD4, 0xE5, 0xF6, 0x07, 0x28, 0x39, 0x4A, 0x5B, 0x6C, 0x7D, 0x8E, 0x9F][k % 15] for k in range(c["len"] - 1)]
+        if c["len"] == 2:
+            body = [0xC1]
+        bs = [core.unbig(c["int"])] + body
         term = {"k": "address", "v": bs}
         if f == "bech32":
             return bech32("addr_test", bs), term
